@@ -144,9 +144,12 @@ PROPS = {
                       "framed; a failing or short write makes the flush fail and leaves all pending samples, a successful one moves them to the log exactly once; an Add "
                       "whose implicit flush fails is rejected without touching the collector. durability_bound: over a writer that accepts every write, after any sequence of "
                       "Add calls of which k were accepted, a streaming collector with chunk size N >= 1 has handed at least N*floor((k-1)/N) samples to its writer, every "
-                      "accepted sample is in the writer or among the at most N pending ones (inductive invariant DInv over all histories).",
-        "level_note": "Exactly-once recovery over whole fault scripts is checked by the oracle on every case of the hist/fault "
-                      "streams; the theorems give the one-step laws it follows from. A short write leaves half a document in the byte log: recovery is stated over the "
+                      "accepted sample is in the writer or among the at most N pending ones (inductive invariant DInv over all histories). faithful_under_any_write_faults: for EVERY "
+                      "script of write results (ok / error without consuming / short count) and every sequence of Adds, the samples in the complete writes followed by the "
+                      "pending ones are exactly the samples whose Add returned nil, once each and in order - a failing write discards nothing, a later successful flush "
+                      "delivers the pending samples exactly once, an Add that returned an error added nothing.",
+        "level_note": "The fault theorem is about Add histories of the (schema-unaware) streaming collector; explicit Flush/Reset calls between the Adds and the schema-aware "
+                      "variants under faults are checked by the oracle on every case of the fault stream. A short write leaves half a document in the byte log: recovery is stated over the "
                       "fully successful writes.",
         "assumptions": ["documents shorter than 2^31 bytes"],
     },
